@@ -630,6 +630,14 @@ class HasIO(HasStateDisplay, HasLabel, HasRun, Generic[OutputsType], ABC):
             self.signals.output,
         ]
 
+    def _io_panels_by_name(self) -> dict[str, IO]:
+        return {
+            "inputs": self.inputs,
+            "outputs": self.outputs,
+            "signals.input": self.signals.input,
+            "signals.output": self.signals.output,
+        }
+
 
 class ConnectionCopyError(ValueError):
     """Raised when trying to copy IO, but connections cannot be copied"""
